@@ -2,7 +2,7 @@
 import path_common as pc
 
 def run(ck):
-    ck.level = "translation_validation"
+    ck.level = "proof"
     ck.cov["rule"] = ("every string over {'/', '.', 'a'} up to length 9 (quick) / 12 (thorough) plus seeded random strings over more bytes: all eight decomposition "
                       "views as (offset, length), the nine has_*/is_absolute answers, is_relative and the component iterator's frames are compared with the model; "
                       "the harness judges every answer against libstdc++'s std::filesystem::path (text for names and relative path, path equality for root and parent) "
